@@ -13,6 +13,7 @@ import PenneModel.Types.ValueType
 import PenneModel.Decls.Order
 import PenneModel.Types.Ops
 import PenneModel.Mut.Model
+import PenneModel.Flat.Header
 /-
   Model driver: one request per line on stdin (`OP<TAB>payload`), one answer per line on stdout.
   Only model files are imported (no Mathlib, no proof files), so this links as a native executable.
@@ -192,6 +193,13 @@ def handle (op payload : String) : String :=
         "cyclical=" ++ ",".intercalate ((Order.cyclical edges).map toString) ++ " n=" ++ toString ids.length ++ " hascycle=" ++
           (if Order.hasCycle edges then "1" else "0")
       | _, _ => "bad-request"
+    | _ => "bad-request"
+  | "header" =>
+    match Sexp.parse payload with
+    | some (.list ns) =>
+      match ns.mapM Flat.nodeOfSexp with
+      | some nodes => " ".intercalate ((Flat.buildHeader nodes).map Flat.showNode)
+      | none => "bad-node"
     | _ => "bad-request"
   | "mut" =>
     -- (write <base> <step>*)
